@@ -27,11 +27,12 @@ vars == <<prog, out>>
 Perms == {"public", "private"}
 VarKinds == {"var", "param"}
 ProcKinds == {"sub", "func"}
-IfaceKinds == {"generic", "absint", "operator", "genbody"}     \* genbody: a generic interface holding an interface body
-ModKinds == VarKinds \cup {"type"} \cup ProcKinds \cup IfaceKinds
+IfaceKinds == {"generic", "absint", "operator", "genbody",     \* genbody: a generic interface holding an interface body
+               "opeq"}                                          \* a generic spec spelled with "=": operator(==), operator(/=), assignment(=)
+ModKinds == VarKinds \cup {"type", "ctype"} \cup ProcKinds \cup IfaceKinds      \* ctype: a type with a constructor interface of its name
 AttrsOf(k) == CASE k = "var"   -> {"none", "public", "private", "protected"}
                 [] k = "param" -> {"none", "public", "private"}
-                [] k = "type"  -> {"none", "public", "private"}
+                [] k \in {"type", "ctype"} -> {"none", "public", "private"}
                 [] OTHER       -> {"none"}
 BindForms == {"single", "multi", "generic", "deferred"}
 
